@@ -367,6 +367,8 @@ type Machine struct {
 	lastRun         *G
 	preemptions     int
 	maxPreempt      int
+	timeSlip        int64 // exploration mode: a timer due within this many ns may fire at any scheduling point (real time passes while code runs)
+	slips           int
 	observedTerms   []observation
 	lazyAddr        map[*Value]*ssa.Global
 	namedErrs       map[string]Value
